@@ -6,6 +6,7 @@ RULE = ("Identities of every type pair and certificate kind parsed through 9 ent
         "against the standard library's SHA-256 of the first L input bytes (L from the specification), Base32Address against TLC's bit-level "
         "base32 of that hash + '.b32.i2p' (60 chars), Base64 against TLC's base64 of the wire bytes; pairs (a, a') differing in one byte at "
         "every region boundary (quick) / every position (thorough): Equals/Equal iff bytes equal, differing bytes => differing hash and address.")
+RULE += (' After the first observation one padding byte (or the signing key object) is changed in place through the exported fields: hash and addresses must follow.')
 ASSUME = [common.TRUSTED, "SHA-256 collision resistance (two different identities have different hashes)", "crypto/sha256 of the standard library is the independent hash"]
 META = {
     "level": "model_checking",
